@@ -5,3 +5,5 @@ import J1939.Props.C06
 #print axioms J1939.Props.C06.c06_snd_giveup
 #print axioms J1939.Props.C06.c06_timeouts
 #print axioms J1939.Props.C06.c06_followup
+#print axioms J1939.Props.C06.c06_22_out_of_order_ignored
+#print axioms J1939.Props.C06.c06_22_eom_exact_or_nothing
